@@ -71,6 +71,12 @@ def fixtures():
                  "nav.md": b"- [Home][home]\n- > [Up][home] *x*\n\n# Nav [home]\n\ntext[^n] HTML\n\n[^n]: note [home]\n",
                  "heads.md": b"## Inc two\n\npara\n\n### Inc three\n",
                  "cyc_a.md": b"a\n\n.. include:: cyc_b.md\n\n```{include} cyc_b.md\n```\n", "cyc_b.md": b"b\n\n.. include:: cyc_a.md\n\n```{include} cyc_a.md\n```\n"}
+        # long acyclic chains of Markdown files, each including the next: fenced spelling, RST spelling, the two in turn
+        for i in range(300):
+            nxt = "" if i == 299 else "%03d.md" % (i + 1)
+            files["chain_f_%03d.md" % i] = ("para %d\n\n" % i + ("```{include} chain_f_%s\n```\n" % nxt if nxt else "")).encode()
+            files["chain_r_%03d.md" % i] = ("para %d\n\n" % i + (".. include:: chain_r_%s\n" % nxt if nxt else "")).encode()
+            files["chain_m_%03d.md" % i] = ("- item %d\n\n" % i + ((".. include:: chain_m_%s\n" if i % 2 else "```{include} chain_m_%s\n```\n") % nxt if nxt else "")).encode()
         for name, data in files.items():
             with open(os.path.join(d, name), "wb") as f:
                 f.write(data)
